@@ -20,6 +20,7 @@ def run(c):
     st = res["stats"]
     c.guard("blocks", st.get("blocks", 0))
     c.guard("accepted", st.get("accepted", 0))
+    c.guard("dags_with_13_or_more_validators", st.get("dags_with_13_or_more_validators", 0))
     # coverage counters of the reference election, over the random DAGs and the corpus replays together
     c.guard("spec_no_quorum_decisions", st.get("spec_no_quorum_decisions", 0) + cor["total"].get("spec_no_quorum_decisions", 0))
     c.guard("spec_atropos_not_first", st.get("spec_atropos_not_first", 0) + cor["total"].get("spec_atropos_not_first", 0))
